@@ -179,6 +179,14 @@ def call_on_value(w, e, recv, mname, args, kwargs, s):
         heap = s.env.get("$heap", {})
         if (recv, mname) in heap:
             return call_value(w, e, heap[(recv, mname)], args, kwargs, s)
+    if recv[0] == "param" and w.fi.cls and not w.fi.is_classmethod and not w.fi.is_staticmethod and w.fi.parent is None and w.fi.node.args.args and recv == P(w.fi.node.args.args[0].arg):
+        # self.method(...) inside a method: the class's own method, unless a subclass in the
+        # repository overrides it (then the receiver's class decides, which is not known here)
+        cq = w.fi.mod.short + "." + w.fi.cls
+        m = w.prog.find_method(cq, mname)
+        overridden = any(q != cq and ("repo", cq) in w.prog.mro(q) and mname in ci_.methods for q, ci_ in w.prog.classes.items())
+        if m is not None and m[0] == "repo" and not overridden and not m[1].is_classmethod and not m[1].is_staticmethod and m[1] is not w.fi and (recv, mname) not in s.env.get("$heap", {}):
+            return apply_repo(w, e, m[1], None, (recv,) + tuple(args), kwargs, s)
     nt = recv
     if recv[0] == "global" and recv[1].startswith("const:"):
         lit = w.eng.const_literal(recv[1][6:])
